@@ -91,9 +91,13 @@ def _handle_running(
     """Handle RUNNING status - task needs to be re-executed."""
     delay = get_backoff_fn(stage, task_model, message, 1)
 
-    # Atomic: store stage + push message together
+    # Atomic: store stage + push the next poll + mark this delivery
+    # processed. Without the mark in the same commit, a crash right after it
+    # redelivers this message next to its re-queued copy: two live RunTask
+    # chains polling one task.
     txn_helper.execute_atomic(
         stage=stage,
+        source_message=message,
         messages_to_push=[(message, delay.total_seconds())],
         handler_name="RunTask",
     )
